@@ -63,7 +63,18 @@ def check_timemap(case):
         _run(st, alt, y, n, p)
     xs0, ys0 = _run(st, x, y, n, p)
     x2 = [c * v + d for v in x]
-    xs1, ys1 = _run(st, x2, y, n, p)
+    if case.get("in_place"):
+        # the caller converts the units of ITS OWN abscissa array in place and recreates again with the same object
+        xa = np.array(x, dtype=float)
+        C_ = RC.cls(st)
+        C_(xa, np.array(y, dtype=float), n, **RC.kwargs_for(st, p)).rfa()
+        xa *= c
+        xa += d
+        r1 = C_(xa, np.array(y, dtype=float), n, **RC.kwargs_for(st, p)).rfa()
+        xs1, ys1 = np.asarray(r1[0], dtype=float), np.asarray(r1[1], dtype=float)
+        x2 = [float(v) for v in xa]
+    else:
+        xs1, ys1 = _run(st, x2, y, n, p)
     fails = []
     key = {"strategy": st, "relation": "time-map"}
     sx = max(1.0, max(abs(v) for v in x2))
@@ -170,7 +181,7 @@ def harnesses(tier, seed):
             judge(ctx, check_valuemap, {"strategy": st, "x": x, "y": list(y), "n": n, "p": p, "a": a, "b": b}, calls=2, bulk=True,
                   nontrivial=lambda s: len(set(s[-1])) > 1)
             c, d = TMAPS[(idx // 4) % len(TMAPS)]
-            judge(ctx, check_timemap, {"strategy": st, "x": x, "y": list(y), "n": n, "p": p, "c": c, "d": d}, calls=2, bulk=True,
+            judge(ctx, check_timemap, {"strategy": st, "x": x, "y": list(y), "n": n, "p": p, "c": c, "d": d, "in_place": idx % 3 == 1}, calls=2, bulk=True,
                   nontrivial=lambda s: len(set(s[-1])) > 1)
         # locality: every single-value replacement inside the lattice (no extra runs needed)
         for y in lattice:
